@@ -4,6 +4,7 @@ CONSTANTS Callers = {c1, c2}
  MaxRot = 2
  MaxAtt = 3
  FreshKey = FALSE
+ MaxJunk = 0
  Dev = {"NotifyAllOnBadSalt", "StaleEntryAfterNotify"}
 INVARIANTS WireIdsIncrease SeqNoRules OwnResult AcceptedNeverResent SaltPersisted NoStallNotify NoStallDeliver
 VIEW view
